@@ -382,7 +382,7 @@ func makemsgDetectIndex(c *Ctx, mk *FuncInfo) int {
 }
 
 func init() {
-	register(&Rule{ID: "R5.field-list-persistent", Props: []string{"C05", "C01", "C10"}, Floor: 3,
+	register(&Rule{ID: "R5.field-list-persistent", Props: []string{"C05", "C01", "C10"}, Floor: 2,
 		Text: "a field.List is a value that shares its buffer with every copy of it: the previous object of a SET (which fenceMatch tests the WHERE filter against), a notification still queued for a live connection, and the new object all hold lists that may share memory, so the list is persistent — in internal/field no function writes into memory that belongs to an existing list: every destination of copy(…) and every indexed store is a buffer created in that function (make, a local array), never the slice obtained from a list's pointer (ptob(list.p)) or a parameter; an update in place changes what the previous object and queued notifications show",
 		Run:  ruleFieldListPersistent})
 }
@@ -460,12 +460,61 @@ func ruleFieldListPersistent(c *Ctx) {
 			}
 			c.bad(key, at.Pos(), "%s writes into %s, which is not a buffer created in this function: it is memory of an existing list (the receiver's, obtained through ptob, or a caller's), and every copy of that list — the previous object of the SET that fenceMatch evaluates, a notification queued for a live connection — changes with it", what, exprStr(dst))
 		}
+		// locals that are views of an existing list's memory: b := ptob(list.p), b2 := b[i:j]
+		fromList := map[types.Object]bool{}
+		for changed := true; changed; {
+			changed = false
+			ast.Inspect(fn.Decl.Body, func(x ast.Node) bool {
+				as, ok := x.(*ast.AssignStmt)
+				if !ok || len(as.Lhs) != len(as.Rhs) {
+					return true
+				}
+				for i, r := range as.Rhs {
+					lid, ok := ast.Unparen(as.Lhs[i]).(*ast.Ident)
+					if !ok {
+						continue
+					}
+					o := info.ObjectOf(lid)
+					if o == nil || fromList[o] {
+						continue
+					}
+					isView := false
+					if call, ok := ast.Unparen(r).(*ast.CallExpr); ok {
+						if f := callee(info, call); f != nil && f.Name() == "ptob" {
+							isView = true
+						}
+					}
+					if root := rootOf(r); root != nil && fromList[root] {
+						if _, isSlice := ast.Unparen(r).(*ast.SliceExpr); isSlice {
+							isView = true
+						}
+						if _, isId := ast.Unparen(r).(*ast.Ident); isId {
+							isView = true
+						}
+					}
+					if isView {
+						fromList[o] = true
+						changed = true
+					}
+				}
+				return true
+			})
+		}
 		ast.Inspect(fn.Decl.Body, func(x ast.Node) bool {
 			switch s := x.(type) {
 			case *ast.CallExpr:
 				if id, ok := ast.Unparen(s.Fun).(*ast.Ident); ok && id.Name == "copy" && len(s.Args) == 2 {
 					if _, isB := info.Uses[id].(*types.Builtin); isB {
 						judge(s.Args[0], s, "copy into")
+					}
+				}
+				// append(dst, …) writes into dst's memory while its capacity lasts: a buffer created here is
+				// fine, a view of an existing list is not; a caller's scratch buffer (a parameter) is not list memory
+				if id, ok := ast.Unparen(s.Fun).(*ast.Ident); ok && id.Name == "append" && len(s.Args) >= 2 {
+					if _, isB := info.Uses[id].(*types.Builtin); isB {
+						if root := rootOf(s.Args[0]); root != nil && (fresh[root] || fromList[root]) {
+							judge(s.Args[0], s, "append to")
+						}
 					}
 				}
 			case *ast.AssignStmt:
